@@ -414,6 +414,20 @@ def step_time_edit(rnd, spec):
     return {"op": "set", "obj": st, "attr": "user_time_spent", "value": ["q", m, u]}
 
 
+def storage_base_edit(rnd, spec):
+    """the initial need of a storage set to another non-zero value (an input that is ADDED to a series: applying it twice must not add it twice)"""
+    O = spec["objects"]
+    sts = names_of(spec, "Storage")
+    if not sts:
+        return None
+    st = rnd.choice(sts)
+    old = O[st]["params"]["base_storage_need"]
+    m = rnd.choice([x for x in (1.37, 2.37, 5.37, 8.37) if x != old[1]])
+    if old[1] > 20:       # a storage that lives on its initial need (deleting job): stay in its order of magnitude
+        m = old[1] * rnd.choice([1.37, 0.73])
+    return {"op": "set", "obj": st, "attr": "base_storage_need", "value": ["q", m, "TB"]}
+
+
 def simulate_edit(rnd, spec):
     """a dated what-if (most of them containing a link change, so that untouched ancestors are replaced by copies and put back)"""
     changes, seen = [], set()
@@ -504,9 +518,9 @@ def fill_empty_step_edit(rnd, spec):
 
 KINDS = {"fill_empty_step": fill_empty_step_edit, "num": num_edit, "link": link_edit, "list_assign": list_assign_edit, "list_mut": list_mut_edit, "starts": starts_edit,
          "server_type": server_type_edit, "group": group_edit, "same_target_group": same_target_group_edit, "step_time": step_time_edit,
-         "simulate": simulate_edit, "delete_pattern": delete_pattern_edit, "fresh_storage": fresh_storage_edit}
+         "simulate": simulate_edit, "delete_pattern": delete_pattern_edit, "fresh_storage": fresh_storage_edit, "storage_base": storage_base_edit}
 DEFAULT_MIX = ["num", "num", "num", "link", "link", "list_assign", "list_mut", "list_mut", "starts", "server_type", "group", "fill_empty_step",
-               "same_target_group", "step_time", "simulate", "fresh_storage", "delete_pattern"]
+               "same_target_group", "step_time", "simulate", "fresh_storage", "delete_pattern", "storage_base", "num", "num"]
 
 
 def rand_edit(rnd, spec, mix=None):
@@ -536,9 +550,9 @@ def risky_edit(rnd, spec, objs=None):
     if servers:
         choices += ["base_ram", "base_compute", "util", "ram_small"]
         if objs is not None:
-            choices += ["fix_server", "fix_server"]
+            choices += ["fix_server", "fix_server", "fix_server_short"]
     if storages and objs is not None:
-        choices += ["fix_storage"]
+        choices += ["fix_storage", "fix_storage_short"]
     if storages and jobs:
         choices += ["base_storage_short"]
     if jobs:
@@ -560,20 +574,28 @@ def risky_edit(rnd, spec, objs=None):
     if k == "ram_small":
         s = rnd.choice(servers)
         return {"op": "set", "obj": s, "attr": "ram", "value": ["q", 1e-4, "GB"], "kind": "risky_" + k}
+    force_short = k.endswith("_short")
+    if force_short:
+        k = k[:-6]
+        onp = [x for x in servers if O[x]["params"]["server_type"][1] == "on-premise"]
+        if k == "fix_server" and onp:
+            servers = onp
     if k in ("fix_server", "fix_storage"):
         n = rnd.choice(servers if k == "fix_server" else storages)
         if k == "fix_server" and O[n]["params"]["server_type"][1] != "on-premise":
             return {"op": "set", "obj": n, "attr": "server_type", "value": ["s", "on-premise"], "kind": "risky_to_on_premise"}
-        live = objs[n].nb_of_instances
+        live = objs[n].raw_nb_of_instances        # the need itself (nb_of_instances is the current fixed count when there is one)
         if isinstance(live, E.EmptyExplainableObject):
             return None
         import numpy as np
         mx = float(np.max(np.asarray(live.value["value"].values._data, dtype=float)))
+        if not np.isfinite(mx):
+            return None
         # (beyond 1e6 instances the need is only known to a few ulps: leave a relative margin so that a fresh build agrees)
         need = float(np.ceil(mx)) if mx < 1e6 else float(np.ceil(mx * (1 + 1e-9)))
         if abs(mx - round(mx)) < max(1e-9, 1e-11 * abs(mx)):
             need = float(round(mx)) + 1
-        if need >= 2 and rnd.random() < 0.35:
+        if need >= 1 and (force_short or (need >= 2 and rnd.random() < 0.35)):
             # the count itself is given one short of the need: the failing edit does not recompute the need it is compared with
             return {"op": "set", "obj": n, "attr": "fixed_nb_of_instances", "value": ["q", need - 1, "dimensionless"], "kind": "risky_" + k + "_short"}
         return {"op": "set", "obj": n, "attr": "fixed_nb_of_instances", "value": ["q", need + rnd.choice([0, 0, 1]), "dimensionless"],
